@@ -266,6 +266,15 @@ pub fn mirror_scenario(prop: &str, seed: u64, index: u64) -> Option<Scenario> {
         scn.faults.push(FaultSpec::ValidityFalseAt { at_call: k });
         scn.params.insert("validity_false_at".into(), k as f64);
     }
+    // Python only: a validity callback that memoises per state OBJECT (and keeps the objects): on
+    // a binding that hands every call its own copy of the state it is the plain callback
+    if prop == "C19" && rng.chance(0.15) {
+        scn.params.insert("identity_memo".into(), 1.0);
+    }
+    // seeds from the whole 64-bit range (a conversion through a double loses the low bits above 2^53)
+    if prop == "C19" && rng.chance(0.25) {
+        scn.planner.seed = Some(rng.u64() | (1 << 62) | 1);
+    }
     // Python only: the component wrappers of a compound are mutated after the compound space was
     // built from them (it copied them) and before the problem definition is created
     if prop == "C19" && matches!(scn.space, SpaceSpec::Compound { .. }) && rng.chance(0.3) {
@@ -411,6 +420,19 @@ pub fn mirror_scenario(prop: &str, seed: u64, index: u64) -> Option<Scenario> {
         // the planner reaches the goal (pysim finds that call with a dry run)
         if kth > 0 && index / 5 % 3 == 2 && index % 2 == 0 {
             scn.params.insert("fault_at_goal_call".into(), 1.0);
+        }
+        // region faults of the goal predicate, a third of them: the failing method is installed
+        // on the live goal object only AFTER the first query (the user rebinds `is_satisfied`),
+        // and the planner is queried again
+        if kth == 0 && index / 5 % 3 == 2 && index % 2 == 1 {
+            let solves = scn.calls.iter().filter(|c| matches!(c, CallSpec::Solve { .. })).count();
+            if solves < 2 {
+                if rng.chance(0.5) {
+                    scn.calls.extend(setup(0));
+                }
+                scn.calls.push(solve.clone());
+            }
+            scn.params.insert("goal_rebind".into(), 1.0);
         }
     }
     Some(scn)
